@@ -17,7 +17,7 @@ try:
     res = {}
     for p in props:
         r = subprocess.run(["./check", p], cwd="/verif", env=dict(os.environ, VERIF_REPO=wt), stdout=subprocess.PIPE, stderr=subprocess.PIPE, text=True)
-        failed = [l.strip()[19:] for l in r.stderr.split("\n") if "failed obligation" in l]
+        failed = [l.strip()[len("failed obligation "):] for l in r.stderr.split("\n") if "failed obligation" in l]
         und = [l.strip() for l in r.stderr.split("\n") if l.startswith("UNDECIDED")]
         res[p] = {"exit": r.returncode, "violation_lines": [l for l in r.stdout.split("\n") if l.startswith("VIOLATION")], "failed_obligations": failed[:8], "undecided": und[:4]}
         print(seed, p, "exit", r.returncode, {0: "MISSED", 1: "DETECTED", 2: "UNDECIDED"}.get(r.returncode), (failed + und + [""])[0][:200])
